@@ -186,6 +186,64 @@ def _one_mono(arg):
     return ev, dict(mode=mode, ladder=ladder, policy=prm["policy"], n=len(results), g=g, ntp=ntp, nfn=nfn, ap6=ap6, family="traffic_light_2d" if k % 4 == 3 else "autoware_3d")
 
 
+def _one_mono_labels(arg):
+    """a ladder of per-label threshold LISTS over three labels: every rung loosens the threshold of one label and leaves the others alone"""
+    from perception_eval.evaluation.matching.objects_filter import get_negative_objects, get_positive_objects
+    from perception_eval.evaluation.metrics.detection.map import Map
+    from perception_eval.evaluation.result.object_result import DynamicObjectWithPerceptionResult as _R
+
+    from ..build import AW, MODES, obj3d, vid
+
+    seed, k = arg
+    rng = random.Random(seed * 27644437 + k)
+    names = rng.sample(["car", "pedestrian", "bicycle", "bus", "truck"], 3)
+    labels = [AW[n_] for n_ in names]
+    mode = ("center", "plane")[k % 2]
+    results, gts = [], []
+    v = 0
+    for n_ in names:
+        for _ in range(rng.randint(1, 4)):
+            v += 1
+            base = (rng.uniform(-40, 40), rng.uniform(-40, 40), 0.0)
+            est = obj3d(base, yaw=0.0, label=n_, score=rng.uniform(0.1, 0.9), vid=v)
+            if rng.random() < 0.15:
+                results.append(_R(est, None))
+                continue
+            off = rng.choice([0.3, 0.7, 1.2, 1.7, 2.2, 2.7, 3.3])
+            gt = obj3d((base[0] + off, base[1], 0.0), yaw=0.0, label=n_, vid=v)
+            gts.append(gt)
+            results.append(_R(est, gt))
+        if rng.random() < 0.3:
+            v += 1
+            gts.append(obj3d((rng.uniform(60, 80), rng.uniform(60, 80), 0.0), label=n_, vid=v))
+    grid = [0.5, 1.0, 1.5, 2.0, 2.5, 3.0, 3.5]
+    cur = [rng.choice(grid[:4]) for _ in names]
+    ladder = [list(cur)]
+    for _ in range(5):
+        cand = [i for i in range(3) if cur[i] < grid[-1]]
+        if not cand:
+            break
+        i = rng.choice(cand)
+        cur[i] = rng.choice([t for t in grid if t > cur[i]])
+        ladder.append(list(cur))
+    gd = {lb: sum(1 for o in gts if o.semantic_label.label == lb) for lb in labels}
+    ntp, nfn, map6, subset = [], [], [], []
+    prev = None
+    for thrs in ladder:
+        tp, _ = get_positive_objects(results, labels, MODES[mode], list(thrs))
+        _, fn = get_negative_objects(gts, results, labels, MODES[mode], list(thrs))
+        m_ = Map({lb: [[r for r in results if r.estimated_object.semantic_label.label == lb]] for lb in labels}, gd, labels, MODES[mode], list(thrs)).map
+        ids = {vid(r.estimated_object) for r in tp}
+        ntp.append(len(ids))
+        nfn.append(len(fn))
+        map6.append(-1 if m_ == float("inf") else int(round(m_ * 1e6)))
+        if prev is not None:
+            subset.append(1 if prev <= ids else 0)
+        prev = ids
+    ev = dict(tid=0, ev="Mono", ntp=ntp, nfn=nfn, ap6=list(map6), aph6=list(map6), map6=map6, subset=subset)
+    return ev, dict(mode=mode, labels=names, ladder=ladder, n=len(results), ntp=ntp, nfn=nfn, ap6=map6, family="per-label-threshold-lists")
+
+
 def run(ctx: Ctx):
     N = 3 if ctx.quick else 4
     L = math.lcm(*range(1, N + 1))
@@ -217,7 +275,7 @@ def run(ctx: Ctx):
     it = next(i for i in items if len({o["ntp"] for o in i[2]}) > 2)
     ctx.sample({"ranking": it[0], "g": it[1], "spec_per_rung": it[2]})
     n = 150 if ctx.quick else 1500
-    outs = pmap(_one_mono, [(ctx.seed, k) for k in range(n)], chunks=4)
+    outs = pmap(_one_mono, [(ctx.seed, k) for k in range(n)], chunks=4) + pmap(_one_mono_labels, [(ctx.seed, k) for k in range(2 * n)], chunks=4)
     evs, info = [], {}
     for tid, (ev, inf) in enumerate(outs, 1):
         ev["tid"] = tid
